@@ -33,6 +33,10 @@ func newManyToManyMatchError(sampleID, duplicateSampleID uint64, side binOpSide)
 	}
 }
 
+// noTimestamp marks an output slot that has not been filled at any step yet. It lies outside
+// of the range of step timestamps (unlike -1, which is a valid step timestamp).
+const noTimestamp = math.MinInt64
+
 type outputSample struct {
 	lhT        int64
 	rhT        int64
@@ -69,8 +73,8 @@ func newTable(
 	lowCardOutputCache outputIndex,
 ) *table {
 	for i := range outputValues {
-		outputValues[i].lhT = -1
-		outputValues[i].rhT = -1
+		outputValues[i].lhT = noTimestamp
+		outputValues[i].rhT = noTimestamp
 	}
 	return &table{
 		pool: pool,
